@@ -91,6 +91,7 @@ func main() {
 	extra2(out)
 	extra3(out)
 	extra4(out)
+	extra5(out)
 }
 
 // extra adds k10..k17 (leaves of the CA reusing k8's key, common names of 1..8 extra characters so that the
@@ -302,5 +303,31 @@ func extra4(out string) {
 		}
 		write(out, fmt.Sprint("k", 24+i), key, der)
 		fmt.Println(24+i, "modulus bits", key.N.BitLen(), len(der))
+	}
+}
+
+
+// extra5 adds k26 and k27: self-signed certificates that were themselves signed with SHA-384 and SHA-512 (the digest a
+// certificate was issued with says nothing about the digest of signatures made with its key).
+func extra5(out string) {
+	if _, err := os.Stat(out + "/k26.key.pem"); err == nil {
+		return
+	}
+	for i, alg := range []x509.SignatureAlgorithm{x509.SHA384WithRSA, x509.SHA512WithRSA} {
+		key, err := rsa.GenerateKey(rand.Reader, 2048)
+		if err != nil {
+			panic(err)
+		}
+		t := &x509.Certificate{
+			SerialNumber: big.NewInt(int64(0x7001 + i)), Subject: pkix.Name{CommonName: fmt.Sprintf("sim %v", alg), Organization: []string{"verif sim"}},
+			NotBefore: time.Date(1999, 1, 1, 0, 0, 0, 0, time.UTC), NotAfter: time.Date(2099, 1, 1, 0, 0, 0, 0, time.UTC),
+			KeyUsage: x509.KeyUsageDigitalSignature, ExtKeyUsage: []x509.ExtKeyUsage{x509.ExtKeyUsageCodeSigning}, SignatureAlgorithm: alg,
+		}
+		der, err := x509.CreateCertificate(rand.Reader, t, t, &key.PublicKey, key)
+		if err != nil {
+			panic(err)
+		}
+		write(out, fmt.Sprint("k", 26+i), key, der)
+		fmt.Println(26+i, alg, len(der))
 	}
 }
